@@ -50,7 +50,13 @@ func typeName(o postscript.Object) string {
 	return reflect.TypeOf(o).String()
 }
 
-func funcPtr(o postscript.Object) uintptr { return reflect.ValueOf(o).Pointer() }
+func funcPtr(o postscript.Object) uintptr {
+	v := reflect.ValueOf(o)
+	if v.Kind() != reflect.Func {
+		return 0 // not a builtin: a fresh interpreter whose system dictionary was corrupted through shared state
+	}
+	return v.Pointer()
+}
 func mapPtr(d postscript.Dict) uintptr    { return reflect.ValueOf(d).Pointer() }
 
 // newCanon must be called on a fresh interpreter, before any program runs.
@@ -340,7 +346,7 @@ func (c *canon) write(o postscript.Object) {
 			fmt.Fprintf(&c.sb, "A%d+%d=enc{", sid, off)
 			first := true
 			for i, e := range elems {
-				if nm, ok := e.(postscript.Name); ok && nm == c.encSnap[i].(postscript.Name) {
+				if nm, ok := e.(postscript.Name); ok && nm == c.encSnap[i] { // the snapshot may itself be corrupted (shared state)
 					continue
 				}
 				if !first {
